@@ -12,7 +12,9 @@ inductive Op where
   | chunk (phases : List (List Obj))    -- call the chunker on each phase (no API involved)
   | deploy (phases : List (List Obj))   -- `DeploymentReconciler.Reconcile` with these desired phases
   | snap                                -- environment: new ObjectSet revision from the current template
-  | delos (i : Nat)                     -- environment: the i-th ObjectSet is deleted
+  | delos (i : Nat)                     -- environment: the i-th ObjectSet is gone from the API
+  | life (i : Nat) (l : Life)           -- environment: `.spec.lifecycleState` of the i-th ObjectSet is set
+  | markdel (i : Nat)                   -- environment: the i-th ObjectSet gets a deletionTimestamp, still exists
   deriving Repr
 
 inductive Obs (Name : Type) where
@@ -34,6 +36,8 @@ def modelStep (limit : Nat) (strat : Strategy) (hash : List Obj → Nat → Name
     | some (w', ok, del) => (w', .deploy { ok, tmpl := w'.deploy, deleted := del, store := w'.slices })
   | .snap => (snap w, .env)
   | .delos i => (delos w i, .env)
+  | .life i l => (setLife w i l, .env)
+  | .markdel i => (markDeleting w i, .env)
 
 def modelRun (limit : Nat) (strat : Strategy) (hash : List Obj → Nat → Name) :
     World Name → List Op → List (Obs Name)
@@ -54,8 +58,11 @@ def specStep (isHashOf : Name → List Obj → Bool) (limit : Nat) (strat : Stra
   | .snap, .env =>
     (match s.tmpl with
      | none => s
-     | some t => { s with objectSets := s.objectSets ++ [t] }, true)
+     | some t => { s with objectSets := s.objectSets ++ [{ phases := t }] }, true)
   | .delos i, .env => ({ s with objectSets := s.objectSets.eraseIdx i }, true)
+  -- an ObjectSet whose lifecycle state changes / that is being deleted still EXISTS
+  | .life i l, .env => ({ s with objectSets := modifyAt (fun os => { os with life := l }) s.objectSets i }, true)
+  | .markdel i, .env => ({ s with objectSets := modifyAt (fun os => { os with deleting := true }) s.objectSets i }, true)
   | _, _ => (s, false)
 
 def checkRun (isHashOf : Name → List Obj → Bool) (limit : Nat) (strat : Strategy) :
